@@ -80,7 +80,11 @@ func vxH15Clnt(k int, slack int, dotu bool) {
 	}
 	m.starts = append(m.starts, total)
 	var msize int
-	if slack < 0 {
+	if slack == -2 {
+		// the first entry just fits, a later one does not: the listing cannot be completed, and says so
+		msize = len(m.recs[0]) + IOHDRSZ
+		vxAssume(largest > len(m.recs[0]))
+	} else if slack < 0 {
 		msize = largest + IOHDRSZ + vxChoose("msize", total-largest+2)
 	} else {
 		msize = largest + IOHDRSZ + slack
@@ -91,6 +95,12 @@ func vxH15Clnt(k int, slack int, dotu bool) {
 	fid := &Fid{Clnt: clnt, Fid: 9, walked: true, Iounit: uint32(msize) - IOHDRSZ, Mode: OREAD}
 	f := FidFile(fid, 0)
 	got, err := f.Readdir(0)
+	if slack == -2 {
+		vxAssert(m.tooSmall, "model-refused-an-entry")
+		vxAssert(err != nil || len(got) == k, "a-listing-returned-without-error-is-complete")
+		vxReach("done")
+		return
+	}
 	vxAssert(err == nil, "readdir-succeeds-when-the-largest-entry-fits")
 	vxAssert(!m.badOff, "reads-follow-the-offset-rule")
 	vxAssert(!m.tooSmall, "reads-ask-for-at-least-the-largest-entry")
